@@ -25,9 +25,19 @@ structure Hmm where
   emit : Nat → Nat → Nat
   /-- end weight of a state (`fun _ => 1` for a model without explicit end probabilities) -/
   fin : Nat → Nat
+  /-- `Model::has_end_state()`: the model declares explicit end probabilities.  The definitions below
+  (`joint`, `likelihood`, `viterbiVal`) never look at this flag — they always multiply by `fin`, exactly as
+  `forward` and `backward` always add `end_prob`; only the mirror of `hmm::viterbi` branches on it. -/
+  hasEnd : Bool
 
 /-- the same model without end term -/
-def Hmm.noEnd (m : Hmm) : Hmm := { m with fin := fun _ => 1 }
+def Hmm.noEnd (m : Hmm) : Hmm := { m with fin := fun _ => 1, hasEnd := false }
+
+/-- flag and end weights agree: a model that does not declare an end state ends in every state with weight 1.
+True of `discrete_emission::Model` (`end_prob = ln 1`, `has_end_state = false`) and of every
+`discrete_emission_opt_end::Model` built by `with_float` / `with_prob` (`end = None` ⇒ all-ones vector and
+`has_end_state = false`; `end = Some(v)` ⇒ `has_end_state = true`, no condition on `v`). -/
+def Hmm.WF (m : Hmm) : Prop := m.hasEnd = false → ∀ s, s < m.S → m.fin s = 1
 
 /-- all lists of length `T` over `0 … S-1` -/
 def paths (S : Nat) : Nat → List (List Nat)
